@@ -169,3 +169,29 @@ class BatchResponseInit:
     def ensures_fields(self, responses, error, strict, result):
         return (same(self._strict, strict) and same(self._error, error) and self._related is None
                 and isinstance(self._responses, list) and seq_same(self._responses, responses))
+
+
+@contract('pjrpc.common.v20:Request.is_notification', props=['C07', 'C02'])
+class RequestIsNotification:
+    types = {'self': 'pjrpc.common.v20:Request'}
+    raises_only = ()
+    result_type = 'bool'
+
+    def ensures_def(self, result):
+        # C07 / C02: a notification is a request without an id
+        return result == (self._id is None)
+
+
+@contract('pjrpc.common.v20:BatchRequest.is_notification', props=['C07', 'C02'])
+class BatchRequestIsNotification:
+    """C07: a batch is sent as a notification (no reply awaited) exactly when EVERY element is one - whatever the
+    strict flag and however the batch was built"""
+    types = {'self': 'pjrpc.common.v20:BatchRequest'}
+    raises_only = ()
+    result_type = 'bool'
+
+    def requires_inv(self):
+        return isinstance(self._requests, list) and all(isinstance(r, Request) for r in self._requests)
+
+    def ensures_def(self, result):
+        return result == all(r._id is None for r in self._requests)
